@@ -111,7 +111,7 @@ func c06Check(root string, t *c06T, tree ExprNode) []string {
 	c := NewExprSemanticsChecker(false, nil)
 	c.SetContextAvailability([]string{"env", "github", "inputs", "job", "jobs", "matrix", "needs", "runner", "secrets", "steps", "strategy", "vars"})
 	c.SetSpecialFunctionAvailability([]string{"always", "cancelled", "failure", "success", "hashfiles"})
-	env := NewStrictObjectType(map[string]ExprType{"x": t.build()})
+	env := NewStrictObjectType(map[string]ExprType{"x": t.build(), "arr": &ArrayType{Elem: StringType{}}, "obj": NewStrictObjectType(map[string]ExprType{"y": StringType{}})})
 	switch root {
 	case "matrix":
 		c.UpdateMatrix(env)
@@ -136,7 +136,13 @@ func c06Check(root string, t *c06T, tree ExprNode) []string {
 }
 
 func c06Contexts(e string) []string {
+	root := e
+	if i := strings.IndexAny(e, ".["); i > 0 {
+		root = e[:i]
+	}
 	return []string{
+		// E as index of a value that is statically an array / an object (fixed properties of the environment)
+		root + ".arr[" + e + "]", root + ".obj[" + e + "]", "contains(" + root + ".arr[" + e + "], 'a')", root + ".arr[" + e + "] == 'a'", root + ".arr.*[" + e + "]",
 		e, "!" + e, e + " == 1", e + " == 'a'", "1 == " + e, e + " < 1", e + " >= 'a'", e + " && true", "false || " + e, e + " == " + e,
 		"contains(" + e + ", 'a')", "contains('a', " + e + ")", "startsWith(" + e + ", 'a')", "endsWith('a', " + e + ")",
 		"format('{0}', " + e + ")", "format(" + e + ", 'x')", "join(" + e + ", ',')", "join(" + e + ")", "toJSON(" + e + ")", "fromJSON(" + e + ")", "hashFiles(" + e + ")",
